@@ -172,13 +172,16 @@ CHECKS = {
              "semantics; induction over the fragment carrying C01.Inv, with the substitution lemma Sql.inline_eval and Spec.evalUnits_ewise; C01Frag.lean), "
              "refinement_ordered (C01Ord.lean: the same with one arrange - any keys and descending / nulls markers - after the row-level part, further select / "
              "rename / element-wise mutate, and a final slice_head: ORDER BY ... LIMIT ... OFFSET evaluates to the same rows in the same sequence; both sides apply "
-             "the same stable sort to the same key table), rowlevel_single_select, limit_compose (LIMIT max(min(l-o2,n),0) OFFSET o1+o2 selects exactly the rows of two stacked slice_head calls, for all lists "
+             "the same stable sort to the same key table), sql_refines_spec_summarize (C01Agg.lean: an ungrouped summarize of plain aggregates over element-wise "
+             "arguments on top of the row-level fragment compiles to one aggregate SELECT whose single row is the reference semantics' row), "
+             "sql_refines_spec_grouped (C01Group.lean: group_by over non-constant visible columns followed by such a summarize compiles to SELECT keys, aggregates ... GROUP BY keys "
+             "and evaluates to the same groups in the same order with the same values and labels), rowlevel_single_select, limit_compose (LIMIT max(min(l-o2,n),0) OFFSET o1+o2 selects exactly the rows of two stacked slice_head calls, for all lists "
              "and integers), compile_slice_on_limit / compile_slice_first, compile_filter_placement (WHERE before, HAVING after aggregation), "
              "compile_arrange_prepends, compile_summarize_shape, compile_marker_fresh. The property itself is evaluated on the real code: every generated program "
              "(all verbs, element-wise / aggregate / window / case / cast expressions, null / duplicate / empty / single-row data) is exported from Polars and SQLite "
              "and compared (sequence under arrange, multiset otherwise); SQL may only refuse with SubqueryError / NotSupportedError. Both frames are compared with "
              "the Lean Spec's frame and SQLite's with the Lean SQL-compiler model's, and the Cache / check_subquery states with the front-end model. Partial: outside "
-             "these fragments (filter after arrange, stacked arranges, grouping, summarize, windows, joins, unions, subqueries) the refinement compile-then-evaluate = Spec is by "
+             "these fragments (filter after arrange, stacked arranges, summarize of expressions over aggregates, windows, joins, unions, subqueries) the refinement compile-then-evaluate = Spec is by "
              "execution, not a theorem; SQLite's and Polars' evaluators are modelled.",
         design_ref="DESIGN.md section 5, C01",
         note=NOTE_COMMON + "Known findings by trigger (see known_findings.json); D3, D18, D34, D36, D41 were repaired in /repo.",
